@@ -87,6 +87,17 @@ class Check(PropertyCheck):
     def setup(self, tier):
         self._last = None
         self.c25 = C25.Check(); self.c25.setup(tier)
+        self.known_selftest()
+
+    def known_selftest(self):
+        """C26 records no finding: nothing may ever be excused; and the abstain conditions are what they say (literals only)"""
+        for f in ("message 0: reference decoder reads x instead of y", "1 messages in, 0 out (sent)",
+                  "well-formed plain message(s) not delivered: closed, 0 of 1", "the layer raised KeyError while forwarding"):
+            assert self.known({"transport": "udp", "dir": "c2s", "msgs_hex": ["00"]}, {"state": "sent", "out": []}, f) is None
+        q = struct.pack("!HHHHHH", 7, 0x0100, 1, 0, 0, 0) + b"\x07example\x03com\x00\x00\x01\x00\x01"
+        assert D.deliverable(q) and not D.deliverable(q[:-1]) and not D.deliverable(q.replace(b"example", b"ex.mple"))
+        assert not D.deliverable(q.replace(b"\x07example", b"\x07xn--a-b")) and self._soliciting_query(q) == q
+        assert self._soliciting_query(q[:20]) is None
 
     # ------------------------------------------------------------------ generators
     def _labels(self, rng, base):
@@ -223,12 +234,21 @@ class Check(PropertyCheck):
             # that is C27): the client first asks exactly what each server message answers
             qs = [self._soliciting_query(m) for m in msgs]
             if any(q is None for q in qs) or len({q[:2] for q in qs}) != len(qs):
-                raise Skip()              # not a reply the client can have asked for / two replies for one id
+                # input-derived reasons: the specification cannot read the question section (no query to build) / two
+                # replies carry one id (the second query would replace the first pending one)
+                raise Skip()
             for q in qs:
                 w.recv("client", frame(q) if tr == "tcp" else q)
-            if w.errors or "server0" not in w.conns or len([1 for lab, _ in w.sent_log if lab == "server0"]) != len(qs) \
-                    or any(t[0] == "close" for t in w.trace):
-                raise Skip()              # the layer itself cannot read the question section: nothing to answer
+            pre_ok = (not w.errors and "server0" in w.conns and not any(t[0] == "close" for t in w.trace)
+                      and len([1 for lab, _ in w.sent_log if lab == "server0"]) == len(qs))
+            if not pre_ok:
+                if w.errors or all(D.deliverable(q) for q in qs):
+                    # a crash is never acceptable, and a query made of plain host-name labels must be forwarded: this is
+                    # a failure of the case, not a reason to look away
+                    obs = {"state": ("crashed:" + w.errors[0][0]) if w.errors else "query-not-forwarded", "out": [], "other": [], "hooks": []}
+                    self._last = (json.dumps(case, sort_keys=True), obs)
+                    return obs
+                raise Skip()              # odd labels the layer may legitimately refuse: nothing to answer
             w.sent_log.clear(); w.trace.clear()
             w.recv("server0", data); dest = "client"
         outs = [b for lab, b in w.sent_log if lab == dest]
@@ -246,6 +266,8 @@ class Check(PropertyCheck):
     # ------------------------------------------------------------------ the property
     def oracle(self, case, obs):
         if obs["state"].startswith("crashed"): return [f"the layer raised {obs['state'][8:]} while forwarding"]
+        if obs["state"] == "query-not-forwarded":
+            return ["the client's query for this reply (plain host-name labels) was not forwarded to the server"]
         fails = []
         msgs = [unhx(h) for h in case["msgs_hex"]]
         outs = [unhx(h) for h in obs["out"]]
@@ -272,6 +294,7 @@ class Check(PropertyCheck):
 
     def model_lines(self, case):
         obs = self._obs_for(case)
+        if obs["state"] == "query-not-forwarded": return None
         msgs = [unhx(h) for h in case["msgs_hex"]]
         if case["transport"] == "tcp" and not all(0 < len(m) <= U16 for m in msgs): return None
         data = b"".join(frame(m) for m in msgs) if case["transport"] == "tcp" else msgs[0]
